@@ -95,10 +95,18 @@ def slice(ctx: fw.Ctx) -> fw.Outcome:
                         out.violation("nps-" + fw.h(rp), f"notes_per_second({i},{d},{sb},{eb}) = {float(got):.9f}, count/seconds = {float(want):.9f}",
                                       {**rp, "want": str(want)}, observed=str(got), promised=str(want))
 
-    for _ in range(ctx.n(60, 6000)):
+    for k_ in range(ctx.n(60, 6000)):
         src = gen.rand_src(rng, prof)
         tick_calls = []
-        if rng.random() < 0.15 and src.tracks:
+        if k_ % 20 == 3:
+            # always some charts so fast that neighbouring ticks share a microsecond: the rate counts events, not distinct times
+            src.res, src.meta["resolution"] = 192, 192
+            src.tempo, src.anchors, src.tss = [(0, rng.choice([960000000, 999999999, 500000001]))], [], [(0, 4, None)]
+            if not src.tracks:
+                src.tracks.append(gen.TrackSrc(0, 3, [], [], []))
+            src.tracks[0].groups = [gen.NoteGroup(t_, {t_ % 5: 0}) for t_ in (0, 1, 2, 3, 7, 8, 400, 401)]
+            src.tracks[0].phrases, src.tracks[0].tevents = [], []
+        elif rng.random() < 0.15 and src.tracks:
             src.tracks[0].groups = []
         if rng.random() < 0.2:  # very slow tempo: intervals of a day and more
             src.tempo = [(0, rng.choice([1, 2, 5]))] + src.tempo[1:]
